@@ -12,7 +12,13 @@
 (*   (<<pid, state>> published by the launcher), cbs (<<pid, state>> seen  *)
 (*   by the application), jobc (pids whose batch job got a cancel), post   *)
 (*   (per pilot, in the order of pilots: lv, cs, pre), prex, raised        *)
-(* events: Work(pids) Active(pid) JobEnds(pid, state, asked)               *)
+(*   during (where work() was: none | staging | tarball | submit | unlock) *)
+(*   lvpre (launcher views before the event, in the order of pilots)       *)
+(*   cspre (client views before the event; logged by JobEnds)              *)
+(* events: WorkBegin(pids) work() sorted out the pilots a kill had named   *)
+(*           and starts to stage; Work(pids) work() returned; the events   *)
+(*           in between happened while it was busy (other threads)         *)
+(*         Active(pid) JobEnds(pid, state, final, asked, listening)        *)
 (*         Request(api, uids, own)  api = kill | cancel | raw | close      *)
 (*         Deliver(msg) End                                                *)
 (*                                                                         *)
@@ -25,16 +31,25 @@
 (*        launched non-final pilot it means, did not announce it (SAGA),   *)
 (*        did not remember a pilot which is still to come, or that pilot   *)
 (*        was launched later; a request did not send what it has to        *)
+(*        - in particular a kill delivered while work() staged or submitted *)
+(*        the pilot's bulk, which is launched all the same and not killed  *)
 (*   C14.FinalLeft       the application's view left a final state         *)
+(*   C14.StateForWrongPilot  a job state the batch layer reported for one  *)
+(*        pilot was published for another one                              *)
+(*   C15.PilotFinalNotReported  a final job state the batch layer reported *)
+(*        (also from inside the submission) did not make the pilot final   *)
+(*        at the client: Pilot.wait / wait_pilots would not return         *)
 (***************************************************************************)
 EXTENDS PilotKillOps, TLC, Json, IOUtils
 
 Batch  == JsonDeserialize(IOEnv.TRACE_FILE)
 Traces == Batch.traces
 
-VARIABLES tid, l, lv, cs, pre, named, ext, errs, fin
+VARIABLES tid, l, lv, cs, pre, named, ext, errs, fin,
+          wk,     \* the bulk work() is busy with (after WorkBegin)
+          jc      \* pilots whose batch job got a cancel so far
 
-vars == <<tid, l, lv, cs, pre, named, ext, errs, fin>>
+vars == <<tid, l, lv, cs, pre, named, ext, errs, fin, wk, jc>>
 
 T    == Traces[tid]
 Ev   == T.events
@@ -47,12 +62,14 @@ E(cond, name) == IF cond THEN {} ELSE {name}
 Post(e, p) == LET i == CHOOSE j \in 1 .. N : e.post[j].pid = p IN e.post[i]
 Pubs(e)    == SeqSet(e.pubs)
 Cbs(e)     == SeqSet(e.cbs)
-LaunchedP  == {p \in Pids : Launched(lv[p])}
+Idx(p)     == CHOOSE j \in 1 .. N : T.pilots[j].pid = p
+\* the launcher's view just before the event (a pilot dropped on arrival stays dropped)
+LvPre(e, p) == IF lv[p] = "dropped" THEN "dropped" ELSE e.lvpre[Idx(p)]
 
 Init ==
   /\ tid \in 1 .. Len(Traces)
   /\ l = 1 /\ lv = [p \in Pids |-> "none"] /\ cs = [p \in Pids |-> "PEND"]
-  /\ pre = {} /\ named = {} /\ ext = {} /\ errs = {} /\ fin = FALSE
+  /\ pre = {} /\ named = {} /\ ext = {} /\ errs = {} /\ fin = FALSE /\ wk = {} /\ jc = {}
 
 \* who a request names (the manager's "all" is every pilot it holds)
 Names(e) == LET U == SeqSet(e.uids) IN
@@ -78,36 +95,52 @@ Common(e, nm, ex) ==
 Resync(e) ==
   /\ cs'  = [p \in Pids |-> Post(e, p).cs]
   /\ pre' = {p \in Pids : Post(e, p).pre} \cup SeqSet(e.prex)
+  /\ jc'  = jc \cup SeqSet(e.jobc)
+  /\ lv'  = [p \in Pids |-> IF lv[p] = "dropped" \/ (e.ev = "WorkBegin" /\ p \in SeqSet(e.pids) \cap pre
+                                                      /\ Post(e, p).lv = "none")
+                              THEN "dropped" ELSE Post(e, p).lv]
 
 Step ==
   /\ ~fin /\ l <= Len(Ev)
   /\ LET e == Ev[l] IN
      /\ l' = l + 1 /\ fin' = FALSE /\ Resync(e)
-     /\ CASE e.ev = "Work" ->
+     /\ CASE e.ev = "WorkBegin" ->
                LET S    == SeqSet(e.pids)
                    drop == S \cap pre IN
-               /\ lv' = [p \in Pids |-> IF p \in drop /\ Post(e, p).lv = "none" THEN "dropped"
-                                        ELSE IF p \in S THEN Post(e, p).lv ELSE lv[p]]
+               /\ wk' = S \ drop
                /\ UNCHANGED <<named, ext>>
                /\ errs' = errs \cup Common(e, named, ext)
                     \* a pilot a kill named before it arrived is not launched, CANCELED is announced
                     \cup E(\A p \in drop : Post(e, p).lv = "none" /\ <<p, "CANCELED">> \in Pubs(e),
                            "C14.NamedNotKilled")
                     \cup E(\A p \in S \ drop : <<p, "CANCELED">> \notin Pubs(e), "C14.KilledNotNamed")
-                    \cup E(\A p \in S \ drop : Post(e, p).lv = "live", "X.NotLaunched")
+          [] e.ev = "Work" ->
+               \* work() is through.  A pilot of the bulk which a kill - delivered before, while the
+               \* bulk was staged or while it was submitted - had the launcher remember is not alive
+               \* and forgotten: it was not launched, or its job got the cancel
+               /\ wk' = {}
+               /\ UNCHANGED <<named, ext>>
+               /\ errs' = errs \cup Common(e, named, ext)
+                    \cup E(\A p \in wk : Post(e, p).pre => (Post(e, p).lv # "live" \/ p \in jc \cup SeqSet(e.jobc)),
+                           "C14.NamedNotKilled")
+                    \cup E(\A p \in wk : ~Post(e, p).pre => Post(e, p).lv = "live", "X.NotLaunched")
           [] e.ev = "Active" ->
-               /\ UNCHANGED <<lv, named, ext>>
+               /\ UNCHANGED <<named, ext, wk>>
                /\ errs' = errs \cup Common(e, named, ext)
           [] e.ev = "JobEnds" ->
                LET ex == IF e.state = "CANCELED" /\ ~e.asked THEN ext \cup {e.pid} ELSE ext IN
-               /\ lv' = [p \in Pids |-> IF p = e.pid THEN Post(e, p).lv ELSE lv[p]]
-               /\ ext' = ex /\ UNCHANGED named
+               /\ ext' = ex /\ UNCHANGED <<named, wk>>
                /\ errs' = errs \cup Common(e, named, ex)
+                    \* the report is for the pilot the job belongs to, nobody else
+                    \cup E(\A x \in Pubs(e) \cup Cbs(e) : x[1] = e.pid, "C14.StateForWrongPilot")
+                    \cup E(\A p \in Pids \ {e.pid} : Post(e, p).cs = e.cspre[Idx(p)], "C14.StateForWrongPilot")
+                    \* a final job state makes the pilot final at the client (which listens)
+                    \cup E((e.final /\ e.listening) => Post(e, e.pid).cs \in Final, "C15.PilotFinalNotReported")
           [] e.ev = "Request" ->
                LET nm   == named \cup Names(e)
                    want == Wanted(e)
                    got  == e.msgs IN
-               /\ named' = nm /\ UNCHANGED <<lv, ext>>
+               /\ named' = nm /\ UNCHANGED <<ext, wk>>
                /\ errs' = errs \cup Common(e, nm, ext)
                     \cup E(Len(got) <= Len(want), "C14.KilledNotNamed")
                     \cup E(Len(got) >= Len(want), "C14.NamedNotKilled")
@@ -120,10 +153,10 @@ Step ==
                LET m    == e.msg
                    kill == m.cmd = "kill_pilots" /\ m.own
                    U    == SeqSet(m.uids)
-                   mean == IF kill THEN Meant(U, LaunchedP) ELSE {}
+                   lvp  == [p \in Pids |-> LvPre(e, p)]
+                   mean == IF kill THEN Meant(U, {p \in Pids : Launched(lvp[p])}) ELSE {}
                    nmx  == IF kill THEN named \cup (mean \cap Pids) ELSE named IN
-               /\ lv' = [p \in Pids |-> IF lv[p] = "dropped" THEN "dropped" ELSE Post(e, p).lv]
-               /\ named' = nmx /\ UNCHANGED ext
+               /\ named' = nmx /\ UNCHANGED <<ext, wk>>
                /\ errs' = errs \cup Common(e, nmx, ext)
                     \* exactly the pilots the message means are affected ...
                     \cup E(SeqSet(e.jobc) \subseteq mean, "C14.KilledNotNamed")
@@ -131,26 +164,28 @@ Step ==
                     \cup E(\A p \in Pids : (Post(e, p).pre /\ p \notin pre) => p \in mean, "C14.KilledNotNamed")
                     \cup E(SeqSet(e.prex) \ pre \subseteq mean, "C14.KilledNotNamed")
                     \* ... and each of them gets what it is owed
-                    \cup E(\A p \in mean \cap Pids : OwesJobCancel(lv[p]) => p \in SeqSet(e.jobc),
+                    \cup E(\A p \in mean \cap Pids : OwesJobCancel(lvp[p]) => p \in SeqSet(e.jobc),
                            "C14.NamedNotKilled")
-                    \cup E(\A p \in mean \cap Pids : (OwesJobCancel(lv[p]) /\ Kind(p) = "saga")
+                    \cup E(\A p \in mean \cap Pids : (OwesJobCancel(lvp[p]) /\ Kind(p) = "saga")
                                                       => <<p, "CANCELED">> \in Pubs(e), "C14.NamedNotKilled")
-                    \cup E(\A p \in mean \cap Pids : OwesRemember(lv[p]) => Post(e, p).pre, "C14.NamedNotKilled")
+                    \cup E(\A p \in mean \cap Pids : OwesRemember(lvp[p]) => Post(e, p).pre, "C14.NamedNotKilled")
           [] e.ev = "End" ->
-               /\ UNCHANGED <<lv, named, ext>>
+               /\ UNCHANGED <<named, ext, wk>>
                /\ errs' = errs \cup Common(e, named, ext)
+                    \* remembered for cancellation, yet alive and never canceled: the kill was lost
+                    \cup E(\A p \in Pids : Post(e, p).pre => (lv[p] # "live" \/ p \in jc), "C14.NamedNotKilled")
                     \* nobody named it, the batch system did not cancel it: not canceled
                     \cup E(\A p \in Pids \ (named \cup ext) : lv[p] # "CANCELED" /\ cs[p] # "CANCELED",
                            "C14.KilledNotNamed")
           [] OTHER ->
-               /\ errs' = errs \cup {"X.UnknownEvent"} /\ UNCHANGED <<lv, named, ext>>
+               /\ errs' = errs \cup {"X.UnknownEvent"} /\ UNCHANGED <<named, ext, wk>>
   /\ UNCHANGED tid
 
 Finish ==
   /\ ~fin /\ l > Len(Ev)
   /\ fin' = TRUE
   /\ PrintT(<<"RESULT", T.tid, errs>>)
-  /\ UNCHANGED <<tid, l, lv, cs, pre, named, ext, errs>>
+  /\ UNCHANGED <<tid, l, lv, cs, pre, named, ext, errs, wk, jc>>
 
 Next == Step \/ Finish
 Spec == Init /\ [][Next]_vars
